@@ -369,7 +369,11 @@ def p9_length_bookkeeping(prog):
                 once('length-before-walk', st['ln'], 'self.length is updated before the column walk it accounts for')
     for name in list(expect) + ['clone_from']:
         if name not in seen:
-            r.viol('P9', 'missing/' + name, '-', 'expected writer of Archetype.length not found: %s' % name)
+            # a row operation that exists must publish the length; one that no longer exists (merged into its twin)
+            # has nothing left to get wrong - the count of writers is guarded by the rule's floor
+            exists = any(f.path == 'archetype::Archetype::<R>::' + name or (name == 'clone_from' and f.name == 'clone_from' and 'core::clone::Clone for archetype::Archetype' in f.path) for f in prog.fns.values())
+            if exists or name in ('push', 'extend', 'remove_row_unchecked', 'clear', 'clone_from'):
+                r.viol('P9', 'missing/' + name, '-', 'expected writer of Archetype.length not found: %s' % name)
     return r
 
 
